@@ -10,6 +10,16 @@ TB = ("Trusted: Coq 8.16.1 kernel and vm_compute (no native_compute, no axioms: 
       "and ocaml/driver.ml; the correspondence harness (generators, canonicalisers, oracles). ")
 
 CHECKS = {
+    "C01": ("Coq theorems: the engine is total for any registry whose searchers return in-bounds hits (every node, every integer depth), a raising / hanging searcher propagates (nothing swallowed), the in-bounds precondition is necessary "
+            "(Hang example = former defect F5); END-TO-END never-raise theorems for the shipped decoders on every input, with regex-shape facts discharged by vm_compute of a verified exploration on the regex terms regenerated from the source "
+            "(so the fixed defects F1-F5, F7, F21 cannot recur unnoticed). The whole default registry (30 decoders on the model's regex matcher + 127 keyword files + engine) is compared with Multidecoder().scan on generated and malformed inputs; "
+            "the implementation is additionally run with a watchdog on a large corpus and every read-only view is exercised.",
+            "PARTIAL: time inside the regex engine (catastrophic backtracking), interpreter limits (recursion, memory), exceptions inside pefile other than PEFormatError and xortool's float code are outside the model; pefile / xortool are oracles. "
+            "Decoder theorems are disjunctions `Hang or Ok` (Hang = matcher fuel of the model).", "4 C01"),
+    "C02": ("Coq theorems: per layer the codec law (decoding the encoder image yields the payload, all payloads of the layer's domain) for base64, hex, UTF-16LE, XML references, percent-unescape, reversal, replacement, concatenation, caret escaping, byte arrays; "
+            "the engine part for arbitrary registries (a decoded hit's children are a scan of its value with one less depth; flatten splices re-quoted children; chain law in Proofs/ChainProofs.v). Correspondence: encoder stacks of height 1-3 (quick) / 1-6 "
+            "(thorough) over 19 layer forms embedded in neutral text: chain of nodes, exact outer span, flattened text; whole-scan model = implementation on a subset.",
+            "PARTIAL: span selection by the shipped regexes under embedding and dominance over other shipped decoders are validated by the stacks, not proved.", "4 C02"),
     "C03": ("Coq theorems for every registry with non-empty in-bounds hits, every node and depth: the root header is untouched, every node the scan attaches lies "
             "inside its parent's value (start < end), at every nesting level (deep_ok on the annotated reference tree the engine's tree is the erasure of), every attached "
             "node comes from a reported hit. Tied to multidecoder.py by the engine correspondence (exhaustive small hit tables + random) and an implementation-side oracle "
@@ -43,6 +53,17 @@ CHECKS = {
             "the directory and a decoder part that depends only on include/exclude; the translator's table of @decoder-marked functions (from the source text) is the default registry. Correspondence with registry.py on all "
             "singleton / pair / random selections and generated directories; oracle from the property text.",
             "pkgutil / inspect / os.walk enumeration are oracles (their sorted order is reproduced by the translator and the model's sorting).", "4 C18"),
+    "C10": ("Coq theorems: IP node values are canonical dotted quads (inet_aton / IPv4Address models), free-text addresses reported verbatim; is_domain = non-empty name + registered TLD (iff); free-text domains >= 7 characters; e-mail = local@domain; "
+            "URL nodes: scheme in {http, https, ftp}, non-empty host, value = normalize_percent_encoding of the covered text, labelled iff shorter; normalisation length / idempotence laws; find_urls never raises. "
+            "Correspondence per decoder + node oracle on every network.* node of decoder outputs and whole scans.",
+            "Models of glibc inet_aton, ipaddress, urllib.parse (CPython 3.12.1) validated against Python, not verified against their sources.", "4 C10"),
+    "C11": ("Coq theorems: validators accept every grammar instance (canonical quads, name.TLD); each decoder reports the match text with the documented type and exactly the match span; CreateObject up to the balancing parenthesis; PE carving for any section table; "
+            "matcher model sound (and complete for assertion-free patterns) w.r.t. the regex language. Correspondence: grammar-generated instances x offsets x neutral surroundings through the whole scan; per-decoder model comparison.",
+            "PARTIAL: that the engine selects exactly the instance's span under embedding is exercised, not proved; pefile is an oracle.", "4 C11"),
+    "C12": ("Coq theorems: every URL part child's span selects the component text inside the URL value and its value is the decoded component (scheme / MixedCase iff, authority parts, path by RFC 3986 dot-segment removal that never pops the root, "
+            "query, fragment), with the exact remaining side conditions stated; Windows path value = normpath, labelled iff shorter, host / file-name children index the value (unconditional since the F20 fix). "
+            "Correspondence per decoder + independent node oracles (own RFC 3986 splitter, ntpath).",
+            "Side conditions kept visible: '//' with empty authority (unreachable from find_urls), percent-escaped '[' of an IPv6 literal; relative paths with empty segments are outside the property's wording.", "4 C12"),
     "C13": ("Coq theorems: RFC 4648 round trip for every payload; CPython's lenient a2b_base64 (modelled from experiment) agrees with the RFC decoding on canonical text and skips junk; exact characterisation of the nodes "
             "emitted by atob / Base64Decode / FromBase64String / bare base64 (cleaning of line breaks and HTML escapes, the acceptance rules as an iff) / hex / FromHexString / xor children / PowerShell byte arrays, for arbitrary match lists "
             "with in-bounds spans; the regexes are regenerated from the source each run and the decoders run the model's own matcher. Correspondence per decoder + node oracle on every encoding.* / decoded.* / cipher.* node of decoder outputs "
